@@ -242,23 +242,32 @@ func storeSlashingProtection(ctx context.Context, protection *SlashingProtection
 			}
 		}
 
-		existingKeyProtection, exists := existingProtection[key]
-		if exists {
-			// We already have an entry; only add this if it contains newer data.
-			if existingKeyProtection.HighestAttestedSourceEpoch <= keyProtection.HighestAttestedSourceEpoch &&
-				existingKeyProtection.HighestAttestedTargetEpoch <= keyProtection.HighestAttestedTargetEpoch &&
-				existingKeyProtection.HighestProposedSlot <= keyProtection.HighestProposedSlot {
-				protectionMap[key] = keyProtection
-			} else {
-				fmt.Fprintf(os.Stdout, "Existing entry for public key %#x contains newer data; not importing\n", key)
-			}
-		} else {
-			protectionMap[key] = keyProtection
+		// Never lower a value: merge, field by field, with any earlier entry for the same
+		// public key in this file and with the existing protection for the key.
+		if earlier, exists := protectionMap[key]; exists {
+			mergeSlashingProtection(keyProtection, earlier)
 		}
+		if existingKeyProtection, exists := existingProtection[key]; exists {
+			mergeSlashingProtection(keyProtection, existingKeyProtection)
+		}
+		protectionMap[key] = keyProtection
 	}
 	if err := rulesSvc.ImportSlashingProtection(ctx, protectionMap); err != nil {
 		return errors.Wrap(err, "failed to obtain slashing protection")
 	}
 
 	return nil
+}
+
+// mergeSlashingProtection raises each field of dst to that of src if the latter is higher.
+func mergeSlashingProtection(dst *rules.SlashingProtection, src *rules.SlashingProtection) {
+	if src.HighestAttestedSourceEpoch > dst.HighestAttestedSourceEpoch {
+		dst.HighestAttestedSourceEpoch = src.HighestAttestedSourceEpoch
+	}
+	if src.HighestAttestedTargetEpoch > dst.HighestAttestedTargetEpoch {
+		dst.HighestAttestedTargetEpoch = src.HighestAttestedTargetEpoch
+	}
+	if src.HighestProposedSlot > dst.HighestProposedSlot {
+		dst.HighestProposedSlot = src.HighestProposedSlot
+	}
 }
